@@ -93,6 +93,12 @@ def handle (entry : String) (j : Json) : Except String Json := do
         pure [("spec", Json.mkObj [("out", arr sampleJson sp), ("kind", Json.str (kindOf sp)),
                 ("valid", Json.bool (samples.all fun n => decide (stored bits n))),
                 ("enc", bytesJson (pcmData bits samples))])]
+    let w := bits / 8
+    let anyPart :=
+      if (channels = 1 ∨ channels = 2) ∧ w ≠ 0 ∧ data.length % (w * channels) = 0 then
+        let sp : List (Sample Rat) := wavSpec bits keep ((splitEvery w data).map (storedValue bits))
+        [("spec_any", Json.mkObj [("out", arr sampleJson sp), ("kind", Json.str (kindOf sp))])]
+      else []
     let lazyPart ← match optField j "take" with
       | none => pure []
       | some tj => do
@@ -102,7 +108,7 @@ def handle (entry : String) (j : Json) : Except String Json := do
         let n := (sampleReader channels sw (blockReader (f.sampwidth * channels) data)).length
         pure [("lazy", Json.mkObj [("taken", natToJson r.1.length), ("closed", Json.bool r.2.closed),
                 ("spec_taken", natToJson (min k n)), ("spec_closed", Json.bool (closedAfter n k))])]
-    pure <| Json.mkObj (base ++ specPart ++ lazyPart)
+    pure <| Json.mkObj (base ++ specPart ++ anyPart ++ lazyPart)
   | _ => throw s!"C18: unknown entry {entry}"
 
 end ALV.Driver.C18
